@@ -178,6 +178,12 @@ def checkQueryLine (kvs : List (String × String)) (rhs : String) : String := Id
       | _ => return "FAIL PARSE M"
     else if kind == "H" then
       pure ()
+    else if kind == "G" then
+      -- semantic hash under a hand-made normalised map = the weighted sum in the field
+      let ks := (arg.splitOn "_").filterMap String.toNat?
+      let w : Weights Nat := fun v => let k := ks.getD v 0; ((big + 1 - k) % big, k % big)
+      if a != toString (Bdd.wmc (Sem.ffOps big) w d) then
+        return s!"FAIL SPEC query #{i}: semantic hash {a} under the given map, weighted sum of the function {Bdd.wmc (Sem.ffOps big) w d}"
     else return s!"FAIL PARSE query kind {kind}"
   -- the DAG + scratch model on the shared store
   let (mans, st) := runQueries (U := QU) ⟨store, Scr.clear⟩ mq
